@@ -169,6 +169,15 @@ class _Transformer(ast.NodeTransformer):
         pairs = ast.List(elts=[ast.Tuple(elts=[k, v], ctx=ast.Load()) for k, v in zip(node.keys, node.values)], ctx=ast.Load())
         return ast.copy_location(ast.Call(func=ast.Name(id="__pyvc_dict__", ctx=ast.Load()), args=[pairs], keywords=[]), node)
 
+    def visit_Call(self, node):
+        self.generic_visit(node)
+        f = node.func
+        # <bytes literal>.join(X)  ->  __pyvc_join__(<bytes literal>, X): C-level join cannot consume proxy byte strings
+        if isinstance(f, ast.Attribute) and f.attr == "join" and isinstance(f.value, ast.Constant) and isinstance(f.value.value, bytes) \
+                and len(node.args) == 1 and not node.keywords:
+            return ast.copy_location(ast.Call(func=ast.Name(id="__pyvc_join__", ctx=ast.Load()), args=[f.value, node.args[0]], keywords=[]), node)
+        return node
+
     def _loop(self, node):
         self.ordinal += 1
         my = self.ordinal
@@ -291,6 +300,7 @@ class instrumented:
             f.__code__ = code
             f.__globals__["__pyvc_loop__"] = __pyvc_loop__
             f.__globals__["__pyvc_dict__"] = containers.mkdict
+            f.__globals__["__pyvc_join__"] = containers.bytes_join
             for o, cls in loops.items():
                 _SPECS["%s#%d" % (fkey, o)] = cls
         return self
